@@ -171,7 +171,7 @@ func runHistory(c *core.Ctx) {
 			// (twins that spell the same system are left out: for those a used pair is recognised
 			// as equal and gets the identity, a fresh pair runs inverse and forward, and the two
 			// differ by the truncation error of the series - both within the accuracy of C08)
-			if t != nil && !strings.HasPrefix(what, "pm") && !strings.Contains(what, "default_omitted") && !(sdef.Proj == "utm" && !strings.HasPrefix(what, "lat")) {
+			if t != nil && !strings.HasPrefix(what, "pm") {
 				ddef = t
 			}
 		}
